@@ -306,8 +306,8 @@ def rule_support(ctx: Ctx):
                       f"return {xshow(p.value, p.events)}")
     gt = ctx.fn("CallbacksRegistry.__getitem__")
     for p in ctx.paths(gt, inline=None, exc_edges="none"):
-        rep.check(p.kind == "return" and show(p.value) == f"self._registry[{gt.params[1]}]", "C02.keys", gt.loc(), "registry[key] is the executor of that key", gt.key,
-                  f"return {show(p.value)}")
+        rep.check(p.kind == "return" and canon_lookup(p.value, p.events) == ("self._registry", gt.params[1]), "C02.keys", gt.loc(),
+                  "registry[key] is the executor of that key", gt.key, f"return {xshow(p.value, p.events)}")
     ei = ctx.fn("CallbacksExecutor.__iter__")
     for p in ctx.paths(ei, inline=None, exc_edges="none"):
         rep.check(p.kind == "return" and xshow(p.value, p.events) == "iter(self.items)", "C02.keys", ei.loc(), "iterating an executor yields every wrapper it holds",
